@@ -12,13 +12,14 @@ CONSTANT KNOWN
 Trace == ndJsonDeserialize("trace.ndjson")
 VARIABLES l, viol, hist, disp, payers, voters, bal, hold, dust,
           short,      \* inferred: coins that fees paid from stake have recorded but not delivered so far (finding F-13), all families
+          potpaid,    \* inferred: family hash -> voter rewards paid out so far
           rewarded,   \* inferred: <<family hash, account>> pairs that have been paid a voter reward in this history
           fam,       \* inferred: hash -> [in, out] coins that entered / left the dispute account for the family
           paidTimes, \* inferred: <<id, payer>> -> number of fee payments by that payer to that dispute id
           bondFam    \* inferred: hashes of families that received a fee payment from stake
-tvars == <<l, viol, hist, disp, payers, voters, bal, hold, dust, fam, paidTimes, bondFam, rewarded, short>>
+tvars == <<l, viol, hist, disp, payers, voters, bal, hold, dust, fam, paidTimes, bondFam, rewarded, short, potpaid>>
 Init == /\ l = 1 /\ viol = {} /\ hist = 0 /\ disp = <<>> /\ payers = <<>> /\ voters = <<>> /\ bal = Zero /\ hold = <<>> /\ dust = Zero
-        /\ fam = <<>> /\ paidTimes = <<>> /\ bondFam = {} /\ rewarded = {} /\ short = Zero
+        /\ fam = <<>> /\ paidTimes = <<>> /\ bondFam = {} /\ rewarded = {} /\ short = Zero /\ potpaid = <<>>
 
 ById(ds, id) == CHOOSE d \in Range(ds) : d.id = id
 Has(ds, id) == \E d \in Range(ds) : d.id = id
@@ -35,10 +36,11 @@ Returned(d) == IF ResultOf(d) \in {3, 6} THEN d.slashorig
 \* the against branch stores slash + (slash - burn) back into the record: recover the original slash amount
 OrigSlash(d, pre) == IF Has(pre, d.id) THEN ById(pre, d.id).slash ELSE d.slash
 Outflows(post) ==
-  \* admissible totals leaving the account in this begin-block: per executed dispute, burn half or all of the burn amount
+  \* the total leaving the account in this begin-block: per executed dispute its burn and what its result returns
   LET NE == NewlyExecuted(post)
       withOrig == { [d EXCEPT !.slashorig = OrigSlash(d, disp)] : d \in { [x \in (DOMAIN dd) \cup {"slashorig"} |-> IF x = "slashorig" THEN Zero ELSE dd[x]] : dd \in NE } }
-  IN { NSum([d \in withOrig |-> (IF d \in S THEN d.burn ELSE d.burn // N(2)) ++ Returned(d)], withOrig) : S \in SUBSET withOrig }
+  \* (all of it when no voter pot is set aside - nobody voted -, half otherwise: the other half is the voters' pot)
+  IN { NSum([d \in withOrig |-> (IF IsZero(d.vreward) THEN d.burn ELSE d.burn // N(2)) ++ Returned(d)], withOrig) }
 
 \* ---- Dev_* deviations (open findings), identified by the family's history ----
 MultiRound(d) == d.round > 1
@@ -146,6 +148,13 @@ CheckClaim(e, post) ==
      \* ... whichever round the account voted in: one payment per family and account
      \cup (IF Has(disp, e.id) /\ <<d.hash, e.who>> \in rewarded /\ ~IsZero(paid) THEN {"RewardClaimedExactlyOnce"} ELSE {})
      \cup (IF paid \preceq d.vreward /\ Monus(e.post.hold[e.who].bal, hold[e.who].bal) = paid THEN {} ELSE {"RewardIsPaidFromThePotToTheVoter"})
+     \* ... and all the claims of a family together never exceed its pot (the largest voter reward recorded in the family)
+     \cup (IF Has(disp, e.id)
+           THEN LET fam0 == { x \in Range(disp) : x.hash = d.hash }
+                    pot == (CHOOSE x \in fam0 : \A y \in fam0 : y.vreward \preceq x.vreward).vreward
+                    sofar == IF d.hash \in DOMAIN potpaid THEN potpaid[d.hash] ELSE Zero
+                IN IF (sofar ++ paid) \preceq pot THEN {} ELSE {"VoterClaimsTogetherNeverExceedThePot"}
+           ELSE {})
 
 \* shadow ledger per family
 FamOf(ds, id) == IF Has(ds, id) THEN ById(ds, id).hash ELSE "none"
@@ -219,6 +228,12 @@ Step ==
                                          ELSE Zero
                            IN Monus(Monus(tgt.feetotal, before), din)
                       ELSE Zero)
+        /\ potpaid' = LET pp == IF reset THEN <<>> ELSE potpaid IN
+                       IF e.ev = "ClaimReward" /\ e.ok /\ Has(disp, e.id)
+                       THEN LET h == ById(disp, e.id).hash
+                                paid == Monus(bal, b2)
+                            IN [k \in (DOMAIN pp) \cup {h} |-> IF k = h THEN (IF h \in DOMAIN pp THEN pp[h] ELSE Zero) ++ paid ELSE pp[k]]
+                       ELSE pp
         /\ rewarded' = (IF reset THEN {} ELSE rewarded) \cup (IF e.ev = "ClaimReward" /\ e.ok /\ Has(disp, e.id) THEN {<<ById(disp, e.id).hash, e.who>>} ELSE {})
         /\ viol' = IF reset THEN viol ELSE AddViol(viol, l, Check(e, f2))
         /\ l' = l + 1
